@@ -230,6 +230,7 @@ func (tr *Transaction) Commit() error {
 			} else {
 				// Success. Set db.seq.
 				verifGate(tr.db.s, "tx:after-install")
+				verifTrace(tr.db.s, "tx:publish-begin", int64(tr.seq))
 				tr.db.setSeq(tr.seq)
 				verifTrace(tr.db.s, "tx:publish", int64(tr.seq))
 				verifGate(tr.db.s, "tx:after-publish")
